@@ -21,6 +21,8 @@ Inductive pcase :=
 (** [s'] is [s] with redundant parentheses / whitespace added *)
 | CEquiv (s s' : list N) (r r' : pres)
 | CAclParse (s : list N) (r : option acl) (panicked : bool)
+(** [s] is the documented text form of [a] ("{op} {pred} ... {default-op}") *)
+| CAclText (a : acl) (s : list N) (r : option acl) (panicked : bool)
 | CPredStr (s : list N) (r : option pred) (panicked : bool)
 | CPredPrint (p : pred) (out : list N) (back : option pred) (panicked : bool)
 | CHops (m : option (option (list iface))) (r : option (list hop)) (panicked : bool)
@@ -147,6 +149,13 @@ Definition verdict (c : pcase) : N :=
     + bit (negb (pres_eqb r r') || is_prpanic r) 2
   | CAclParse s r p =>
     bit (negb (optb acl_eqb (acl_parse s) r)) 1 + bit p 2
+  | CAclText a s r p =>
+    (* oracle: the text of an ACL parses back to that ACL; the only documented exception is
+       an entry with an all-wildcard predicate, which is rejected unless it comes last (in
+       the text of [a] the default operator always follows it) *)
+    let expected := if existsb (fun e : entry => pred_wildb (snd e)) (a_entries a) then None else Some a in
+    bit (negb (optb acl_eqb (acl_parse s) r)) 1
+    + bit (p || negb (optb acl_eqb r expected)) 2
   | CPredStr s r p =>
     bit (negb (optb pred_eqb (pred_from_str s) r)) 1 + bit p 2
   | CPredPrint p out back pk =>
